@@ -14,7 +14,13 @@ classes of `handleResultError` and the back-off decision, as a deterministic fun
                alive: only that call is failed, the rest of the batch goes on;
   - `ans`      what is on the call's result channel when `waitForCompletion` looks at it;
   - `order`    the order in which Go iterates the `rpcByClient` map (arbitrary: quantified);
-  - `cancel`   where the batch context is observed to be done in this round.
+  - `cancel`   where the batch context is observed to be done in this round;
+  - `gaveUp`   the calls that have a context of their own which the back-off sleep after this round
+               sees done (`contextOfCalls`): when that holds for EVERY call about to be retried the
+               sleep ends at once and so does the retry loop, exactly as for a batch context that is
+               done inside the sleep (nobody is waiting for the calls to be retried any more). A call
+               without a context of its own (`rpc.Context() == ctx` or a context that is never done)
+               never gives up: `gaveUp c = false`.
 
 `res` is the Go slice, written only through `rpcToRes` (the Go map: first position of a call).
 A goroutine blocked forever (no answer, no context done) is `Outcome.fault`.
@@ -73,6 +79,8 @@ structure Round where
   ans : Nat → Ans
   order : List Nat
   cancel : Cancel
+  /-- has a context of its own, seen done by the back-off sleep after this round -/
+  gaveUp : Nat → Bool := fun _ => false
 
 structure Info where
   table : Nat → Nat
@@ -82,6 +90,8 @@ inductive Event where
   | queue (round client : Nat) (calls : List Nat)   -- client.QueueBatch(ctx, calls)
   | sleep (ns : Int)                                 -- completed back-off sleep
   | sleepCut (ns : Int)                              -- back-off sleep interrupted by the context
+  | sleepLeft (ns : Int)                             -- back-off sleep ended because the own context of
+                                                     -- every call about to be retried is done
   deriving DecidableEq, Repr
 
 structure Result where
@@ -305,6 +315,10 @@ def loop (b0 : List Nat) : List Round → Nat → List Nat → St → Outcome Re
                 ⟨a.res, !a.unretry, a.unretry, Gen.Backoff.beforeWait st.backoff, imm, ev⟩
             else if rd.cancel = .sleep then
               .ok ⟨a.res, a.allOK, ev ++ [.sleepCut (Gen.Backoff.sleepFor st.backoff)], a.interrupted⟩
+            else if a.retries.all rd.gaveUp then
+              -- `contextOfCalls`: every call about to be retried has a context of its own and all of
+              -- them are done: the sleep returns an error and the loop `break`s with `res` as it stands
+              .ok ⟨a.res, a.allOK, ev ++ [.sleepLeft (Gen.Backoff.sleepFor st.backoff)], a.interrupted⟩
             else
               loop b0 rest (r + 1) a.retries
                 ⟨a.res, !a.unretry, a.unretry, Gen.Backoff.nextBackoff st.backoff, imm,
